@@ -5,6 +5,23 @@ From Cfg Require Export Harness.C01 Model.BracketSpec.
 Import ListNotations.
 Open Scope N_scope.
 
-Definition oracle (k : case) : bool := c10_oracle (o_log k).
+(* pushes of the channel reach the connection in the order the broker delivered them
+   (per-channel batching may delay, an unsubscribe may discard, nothing may overtake) *)
+Definition push_eqb (a b : frame) : bool :=
+  match a, b with
+  | FPub p, FPub q => pub_eqb p q
+  | FJoin, FJoin | FLeave, FLeave => true
+  | _, _ => false
+  end.
+Fixpoint subseqf (a b : list frame) : bool :=
+  match a, b with
+  | [], _ => true
+  | _ :: _, [] => false
+  | x :: a', y :: b' => if push_eqb x y then subseqf a' b' else subseqf a b'
+  end.
+Definition pushes (l : list frame) : list frame := filter is_push l.
+
+Definition oracle (k : case) : bool :=
+  c10_oracle (o_log k) && subseqf (pushes (o_log k)) (o_deliv k).
 
 Definition run (cs : list case) := failing corr oracle cs.
